@@ -1,5 +1,6 @@
 /- Line-protocol verbs for C18 (the whole-pipeline verb is `REQ process`, Driver/Req.lean). -/
 import FwdVerif.Model.C18
+import FwdVerif.Model.C18Err
 import FwdVerif.Driver.Req
 
 namespace FwdVerif
@@ -83,6 +84,14 @@ def handle : List String → String
       | .ok => "true"
       | v => s!"false {verdictName v}"
     | _, _, _, _ => "bad-op"
+  | ["loopclass", https, lines] =>
+    -- the answer to a detected loop: status, metrics label and `err.Error()` for the chain the modifier read
+    match natOf https, bytesList lines with
+    | some hs, some ls =>
+      let chain := viaChain ls
+      let v := loopClass (hs != 0) chain
+      s!"{v.1} {v.2} {hexOfBytes (loopErr chain).text}"
+    | _, _ => "bad-op"
   | "connect" :: toks =>
     -- one CONNECT under a configuration: outcome + Via lines of the head the upstream proxy receives
     match decodeCfg toks, decodeCtx toks, decodeConnect toks with
